@@ -456,3 +456,86 @@ for vals in CONST_CHAINS:
                          (ObjTraits.__dict__["get"].__func__ if isinstance(ObjTraits.__dict__["get"], staticmethod) else ObjTraits.__dict__["get"], lambda it, v: v)]
     c.interp_flags = {"class_call_models": {OUT.Value: lambda it, args, kw: SObj(_Expr, f_result=args[0], f_bound=list(args[1])), OUT.All: _mk_all}}
     con.cases.append(c)
+
+
+# ---- class-A operands are real: a builtin literal as FIRST operand of a comparison --------------------------------------
+# The single_compare contract above ASSUMES that the comparison method of a class-A operand (int / str literal) returns
+# NotImplemented when it is traced (model `_subcall`).  The real PrepareAst.subcall only does so when the slot wrapper
+# (`str.__ne__`, `int.__ge__` ...) is a registered intrinsic; otherwise the design is rejected although CPython's protocol
+# (and the same comparison written with the operands swapped) accepts it.  Bounded native check behind that assumption:
+# for every literal L, vector port a and operator OP,  `L OP a`  is accepted exactly when the reflected form  `a OP' L`
+# is, and both emit the same expression.
+_LIT_SCRIPT = r'''
+from __future__ import annotations
+import json, linecache, re
+from cohdl import Entity, Port, Bit, BitVector, Unsigned, Signed, std
+
+REFLECT = {"==": "==", "!=": "!=", "<": ">", ">": "<", "<=": ">=", ">=": "<="}
+PORTS = {"BitVector[4]": ['"1010"'], "Unsigned[4]": ['"1010"', "5", "0"], "Signed[4]": ['"1010"', "5", "-3"], "Bit": ['"1"', "True", "1"]}
+bad, n = [], 0
+
+
+def build(ptype, expr):
+    ns = dict(globals())
+    src = f"""
+class Top(Entity):
+    a = Port.input({ptype})
+    x = Port.output(Bit)
+
+    def architecture(self):
+        @std.concurrent
+        def logic():
+            self.x <<= {expr}
+"""
+    fname = f"<literal design {len(linecache.cache)}>"
+    linecache.cache[fname] = (len(src), None, src.splitlines(True), fname)
+    exec(compile(src, fname, "exec"), ns)
+    text = std.VhdlCompiler.to_string(ns["Top"])
+    return text[text.index("CONCURRENT BLOCK (logic)"):]
+
+
+for ptype, lits in PORTS.items():
+    for lit in lits:
+        for op, rop in REFLECT.items():
+            n += 1
+            try:
+                want = build(ptype, f"self.a {rop} {lit}")
+            except Exception:
+                continue  # the comparison itself is not supported for this operand pair: nothing to demand
+            key = f"{lit} {op} {ptype}"
+            try:
+                got = build(ptype, f"{lit} {op} self.a")
+            except Exception as e:
+                bad.append([key, f"`{lit} {op} self.a` is rejected ({type(e).__name__}: {str(e)[:90]}); CPython falls back to the reflected method and `self.a {rop} {lit}` is accepted"])
+                continue
+            if got != want:
+                bad.append([key, f"`{lit} {op} self.a` and `self.a {rop} {lit}` emit different logic"])
+print("RESULT" + json.dumps({"evaluations": n, "bad": bad}))
+'''
+
+
+def literal_first_sweep(tier="quick", seed=0):
+    import json
+
+    from contracts.c06_extra import _run_design
+
+    rc, text = _run_design(_LIT_SCRIPT)
+    if "RESULT" not in text:
+        return {"problems": [f"literal_first_sweep: the script failed: {text[-400:]}"]}
+    data = json.loads(text[text.index("RESULT") + 6:].splitlines()[0])
+    violations = []
+    for key, what in data["bad"]:
+        oid = f"C02/literal_first_sweep[{key}]#bounded"
+        w = f"{key}: {what}"
+        violations.append({"kind": "custom", "qual": "<C02 comparisons with a literal first operand>", "case": key, "oid": oid, "check": "literal_first_sweep", "key": key, "assignment": {"expression": key}, "solver": {"what": w},
+                           "reproduced": True, "replay_payload": {"property": "C02", "custom": "contracts.c02_frontend.replay_literal_first", "key": key, "obligation": oid, "verifier_output": w}})
+    return {"evaluations": data["evaluations"], "distinct": data["evaluations"], "violations": violations, "samples": [{"evaluations": data["evaluations"]}],
+            "bounded": [{"function": "cohdl._compiler.frontend._prepare_ast:PrepareAst.subcall (builtin slot wrappers of class-A operands) through PrepareAst.apply_impl.<single_compare>", "case": "literal_first_sweep",
+                         "evaluations": data["evaluations"], "exhaustive_within_bound": True,
+                         "bound": "literals {str, int, bool} x ports {BitVector[4], Unsigned[4], Signed[4], Bit} x 6 comparison operators; oracle = the same comparison with swapped operands and the reflected operator"}]}
+
+
+def replay_literal_first(payload):
+    r = literal_first_sweep()
+    hit = [v for v in r.get("violations", []) if v["key"] == payload["key"]]
+    return {"reproduced": bool(hit), "detail": hit[0]["solver"]["what"] if hit else "accepted in both operand orders with the same emitted expression"}
